@@ -146,6 +146,9 @@ def step (s : State) : Label → Option (State × Out)
       some ({ s with objs := upd s.objs o { st with buf := none, phase := ph } }, .tag t)
     | none => if s.topicClosed || s.clientClosed then some (s, .err "closed") else none
   | .timeout o =>
+    -- once `done` of the topic (or of the requester's client) is closed the select in WaitTimeout returns at
+    -- once with the error: the timer can no longer win, a wait neither times out nor blocks
+    if s.topicClosed || s.clientClosed then none else
     match (s.objs o).buf with
     | none => some (s, .err "timeout")
     | some _ => none
